@@ -862,7 +862,7 @@ def rule_Q8(ctx, rule: str = "Q8") -> None:
 
 
 def run(ctx) -> None:
-    for name, fn in (("Q8", rule_Q8), ("Q7", rule_Q7), ("Q6", rule_Q6), ("Q1", rule_Q1), ("Q2", rule_Q2), ("Q3", rule_Q3), ("Q4", rule_Q4), ("Q5", rule_Q5), ("K3", jsonrules.rule_K3)):
+    for name, fn in (("Q8", rule_Q8), ("Q7", rule_Q7), ("Q6", rule_Q6), ("Q1", rule_Q1), ("Q2", rule_Q2), ("Q3", rule_Q3), ("Q4", rule_Q4), ("Q5", rule_Q5), ("K3", jsonrules.rule_K3), ("K3b", jsonrules.rule_K3b)):
         ctx.rules_run.append(name)
         fn(ctx)
     ctx.assume("declared range table: timedelta.days in +-999999999, .seconds in [0, 86400), .microseconds/.microsecond in [0, 10**6), nanos in +-(10**9 - 1)")
